@@ -377,3 +377,72 @@ contract(F, "EquivalenceRule.__init__", props=["C07", "C09"], lenient=True,
                   "self.actual_children == children_of(rule)", "is_none(self._constructor)"],
          modifies=["*self", "rule._non_empty_children", "rule._children", "all:Obj('AbstractRule')"], self_invariant=False,
          notes="the equivalence form remembers which child of the original rule it keeps")
+
+# ------------------------------------------------------------------ C07: maps of an equivalence path
+# forward: the rules of the path are applied first to last, each to the (single) image of the previous one;
+# backward: last to first
+provider("objmap", args=[Opaque("Any")], arg_names=["x"], returns=Opaque("Any"))
+ObjA = Opaque("Any")
+contract(F, "Rule.forward_map", props=["C07"], verify=False,
+         trusted_reason="strategy.forward_map(comb_class, obj, children): user code (A2: mutually inverse with backward_map)",
+         params={"self": Obj("Rule"), "obj": ObjA}, returns=Seq(Opt(ObjA)),
+         ensures=["len(result) == len(children_of(self))", "len(result) >= 1"], modifies=[])
+contract(F, "Rule.backward_map", props=["C07"], verify=False, yield_seq=True,
+         trusted_reason="strategy.backward_map(comb_class, objs, children): user code (A2)",
+         params={"self": Obj("Rule"), "objs": Seq(Opt(ObjA))}, returns=Seq(ObjA), modifies=[])
+contract(F, "EquivalencePathRule.forward_map", props=["C07"], aliases={"Any": ObjA},
+         params={"self": Obj("EquivalencePathRule"), "obj": ObjA}, returns=Seq(ObjA),
+         locals={"res": ObjA},
+         ensures=["len(result) == 1"],
+         call_requires={"Rule.forward_map": ["same(self, caller_self.rules[_i0])",      # first to last
+                                             "obj == res",                               # applied to the current image
+                                             "implies(_i0 == 0, obj == caller_obj)"]},   # starting from the argument
+         loops={0: dict(invariant=["implies(_i0 == 0, res == obj)"], modifies=[])},
+         modifies=[], notes="composition of the steps' forward maps, first to last")
+contract(F, "EquivalencePathRule.backward_map", props=["C07"], aliases={"Any": ObjA}, lenient=True,
+         params={"self": Obj("EquivalencePathRule"), "objs": Seq(Opt(ObjA))}, returns=Seq(Opt(ObjA)), yields=["True"],
+         requires=["len(objs) == 1"],       # the path rule has exactly one child
+         locals={"res": Seq(Opt(ObjA))},
+         call_requires={"Rule.backward_map": ["same(self, caller_self.rules[len(caller_self.rules) - 1 - _i0])",   # last to first
+                                              "objs == res", "implies(_i0 == 0, objs == caller_objs)"]},
+         loops={0: dict(invariant=["implies(_i0 == 0, res == objs)", "len(res) == 1"], modifies=[])},
+         modifies=[], notes="composition of the steps' backward maps, last to first")
+
+# ---- EquivalenceRule maps: the kept child is child number child_idx of the original rule
+OA = Opt(ObjA)
+contract(F, "EquivalenceRule.forward_map", props=["C07"], aliases={"Any": ObjA},
+         params={"self": Obj("EquivalenceRule"), "obj": ObjA}, returns=Seq(OA),
+         requires=["0 <= self.child_idx", "self.child_idx < len(children_of(self.original_rule))"],
+         call_requires={"Rule.forward_map": ["same(self, caller_self.original_rule)", "obj == caller_obj"]},
+         ensures=["len(result) == 1", 'result[0] == last_result("Rule.forward_map")[self.child_idx]'],
+         modifies=[], notes="image = the component of the original rule's image at the kept child")
+contract(F, "EquivalenceRule.backward_map", props=["C07"], aliases={"Any": ObjA}, yields=["True"],
+         params={"self": Obj("EquivalenceRule"), "objs": Seq(OA)}, returns=Seq(ObjA),
+         requires=["0 <= self.child_idx", "self.child_idx < len(self.actual_children)", "len(objs) >= 1"],
+         call_requires={"Rule.backward_map": [
+             "same(self, caller_self.original_rule)", "len(objs) == len(caller_self.actual_children)",
+             "objs[caller_self.child_idx] == caller_objs[0]",
+             "forall(lambda i: implies(0 <= i and i < len(objs) and i != caller_self.child_idx, is_none(objs[i])))"]},
+         modifies=[], notes="the object goes to the position of the kept child, every other position is None")
+# ---- ReverseRule maps
+contract(F, "ReverseRule.backward_map", props=["C07"], aliases={"Any": ObjA}, lenient=True,
+         yields=['it == last_result("Rule.forward_map")[self.idx]'],
+         params={"self": Obj("ReverseRule"), "objs": Seq(OA)}, returns=Seq(OA),
+         requires=["len(objs) >= 1", "0 <= self.idx", "self.idx < len(children_of(self.original_rule))"],
+         pure_calls=["non_empty_children"], may_raise=["NotImplementedError", "AssertionError"], asserts="raise",
+         call_requires={"Rule.forward_map": ["same(self, caller_self.original_rule)", "not is_none(objs[0])",
+                                             "obj == val(objs[0])"]},
+         modifies=["all:Obj('AbstractRule')"],
+         notes="the parent object of the reverse rule (its first 'child') is mapped forward by the original rule; component idx")
+contract(F, "ReverseRule.forward_map", props=["C07"], aliases={"Any": ObjA}, lenient=True,
+         params={"self": Obj("ReverseRule"), "obj": ObjA}, returns=Seq(OA),
+         locals={"objs": List(OA), "orig_res": List(ObjA)},
+         requires=["0 <= self.idx", "self.idx < len(children_of(self.original_rule))"],
+         pure_calls=["non_empty_children"], may_raise=["NotImplementedError", "AssertionError", "StrategyDoesNotApply"],
+         asserts="raise",
+         call_requires={"Rule.backward_map": [
+             "same(self, caller_self.original_rule)", "len(objs) == len(children_of(caller_self.original_rule))",
+             "objs[caller_self.idx] == obj",
+             "forall(lambda i: implies(0 <= i and i < len(objs) and i != caller_self.idx, is_none(objs[i])))"]},
+         modifies=["all:Obj('AbstractRule')", "all:List(Opt(Any))", "all:List(Any)"],
+         notes="the object is placed at position idx of the original rule's children and mapped backward")
